@@ -883,10 +883,73 @@ class Program:
         if getattr(body, "inlined", False):
             nb = Body(self, body.raw, track_mut=True)      # an inlined variant is not the cached body of that key
             nb.inlined = True
+            nb.inlined_from = set(getattr(body, "inlined_from", ()))
             return nb
         if body.key not in self._tracked:
             self._tracked[body.key] = Body(self, body.raw, track_mut=True)
         return self._tracked[body.key]
+
+    # private functions of today's tree: the rules are anchored on them by name and read them as separate units.  Any *other*
+    # private function is a helper some later change introduced; the helper-inlined view reads it in place.
+    ANCHOR_FNS = frozenset(["_get_many_from_sorted_mut_unchecked", "bin_width", "build", "cast_view_mut", "central_moment_coefficients",
+                            "compute_bin_width", "edge", "float_quantile_index", "float_quantile_index_fraction", "fmt",
+                            "get_many_from_sorted_mut_unchecked", "higher_index", "horner_method", "inner_weighted_var", "lower_index",
+                            "moments", "n_bins", "new", "quantiles_axis_mut", "remove_nan_mut"])
+
+    def new_helper(self, cb):
+        return (not cb.is_closure) and cb.key not in self.exported and cb.name not in self.ANCHOR_FNS and len(cb.blocks) <= 60 \
+            and not cb.raw.get("unsafe_fn")
+
+    def inlined_view(self):
+        """a Program in which every body has the private helpers that do not exist on the reference tree inlined (identical to
+        self when there are none)"""
+        if getattr(self, "_inl_view", None) is not None:
+            return self._inl_view
+        if not any(self.new_helper(b) for b in self.bodies.values()):
+            self._inl_view = self
+            return self
+        import copy
+        v = copy.copy(self)
+        v.bodies = {}
+        for k, b in self.bodies.items():
+            v.bodies[k] = inline_calls(self, b, self.new_helper, max_depth=3)
+        # a closure written in an inlined helper gets one copy per routine that inlined the helper (key `<closure>@<routine>`),
+        # so that its captures resolve to that routine's own values and not to those of another caller of the same helper
+        helper_closures = [ck for ck, cb in self.bodies.items() if cb.is_closure and cb.root in self.bodies and self.new_helper(self.bodies[cb.root])]
+        if helper_closures:
+            for k in list(v.bodies):
+                b = v.bodies[k]
+                frm = getattr(b, "inlined_from", None)
+                if not frm or b.is_closure:
+                    continue
+                mine = [ck for ck in helper_closures if self.bodies[ck].root in frm]
+                if not mine:
+                    continue
+                ren = {ck: "%s@%s" % (ck, k) for ck in mine}
+
+                def rewrite(o):
+                    if isinstance(o, dict):
+                        return {kk: (ren.get(vv, vv) if (kk in ("closure", "resolved", "path") and isinstance(vv, str)) else rewrite(vv)) for kk, vv in o.items()}
+                    if isinstance(o, list):
+                        return [rewrite(x) for x in o]
+                    return o
+                nraw = dict(b.raw, blocks=rewrite(b.raw["blocks"]))
+                nb = Body(self, nraw, track_mut=b.track_mut)
+                nb.inlined = True
+                nb.inlined_from = set(frm)
+                v.bodies[k] = nb
+                for ck in mine:
+                    cb = v.bodies.get(ck) or self.bodies[ck]
+                    craw = dict(cb.raw, key=ren[ck], root=k, blocks=rewrite(cb.raw["blocks"]))
+                    ncb = Body(self, craw, track_mut=cb.track_mut)
+                    ncb.inlined = True
+                    v.bodies[ren[ck]] = ncb
+        v._closure_sites = None
+        v._callers = None
+        v._tracked = {}
+        v._inl_view = v
+        self._inl_view = v
+        return v
 
     def find(self, suffix, required=True):
         """unique body whose key ends with `suffix`"""
@@ -912,7 +975,8 @@ class Program:
 
     def closures_of(self, body):
         """closures whose typeck root is `body` (all nesting levels), in key order"""
-        return sorted([b for b in self.bodies.values() if b.is_closure and b.root == body.key],
+        roots = {body.key} | set(getattr(body, "inlined_from", ()))     # closures written in an inlined private helper belong to the caller too
+        return sorted([b for b in self.bodies.values() if b.is_closure and b.root in roots],
                       key=lambda b: b.key)
 
     def closure_site(self, closure_key):
@@ -923,7 +987,14 @@ class Program:
                 for bb, si, s in b.assigns():
                     rv = s["rv"]
                     if rv["k"] == "agg" and "closure" in rv:
-                        self._closure_sites[rv["closure"]] = (b, bb, si)
+                        ck = rv["closure"]
+                        prev = self._closure_sites.get(ck)
+                        # in the helper-inlined view a closure written in a helper is also built in the routine that inlined the
+                        # helper: that routine (where the captures are the routine's own values) is the site of interest
+                        own_root = ck.rsplit("::{closure", 1)[0]
+                        if prev is None or (prev[0].key == own_root and b.key != own_root) or \
+                                (prev[0].key != own_root and b.key != own_root and prev[0].is_closure and not b.is_closure):
+                            self._closure_sites[ck] = (b, bb, si)
         site = self._closure_sites.get(closure_key)
         if site is None:
             return None
@@ -972,23 +1043,26 @@ class AnchorMissing(Exception):
 # MIR-level inlining of private helpers (used by the abstract interpreters of Engines E/F so that a loop moved into a
 # helper function is analysed in place)
 
-def _remap(obj, loff, boff, poff):
-    """deep copy of a statement/terminator/place/operand with locals shifted by loff, promoted indices by poff"""
+def _remap(obj, loff, boff, poff, zero_to=None):
+    """deep copy of a statement/terminator/place/operand with locals shifted by loff, promoted indices by poff; the callee's
+    return place (local 0) becomes `zero_to` when given (the caller's destination local)"""
     if isinstance(obj, list):
-        return [_remap(x, loff, boff, poff) for x in obj]
+        return [_remap(x, loff, boff, poff, zero_to) for x in obj]
     if isinstance(obj, dict):
         out = {}
         for k, v in obj.items():
             if k == "l" and isinstance(v, int):
-                out[k] = v + loff
+                out[k] = zero_to if (v == 0 and zero_to is not None) else v + loff
             elif k == "index" and isinstance(v, int):
                 out[k] = v + loff
             elif k == "promoted" and isinstance(v, int):
                 out[k] = v + poff
+            elif k == "callee" and isinstance(v, dict) and "pl" in v:
+                out[k] = dict(v, pl=_remap(v["pl"], loff, boff, poff, zero_to))       # the function-pointer operand of an indirect call
             elif k in ("sp", "fn_sp", "callee", "arg_tys"):
                 out[k] = v
             else:
-                out[k] = _remap(v, loff, boff, poff)
+                out[k] = _remap(v, loff, boff, poff, zero_to)
         return out
     return obj
 
@@ -999,6 +1073,7 @@ def inline_calls(prog, body, should_inline, max_depth=2):
     destination).  Recursive callees are never inlined."""
     raw = json.loads(json.dumps({k: v for k, v in body.raw.items()}))
     changed = False
+    inlined_from = set(getattr(body, "inlined_from", ()))
     for _depth in range(max_depth):
         did = False
         nblocks = len(raw["blocks"])
@@ -1011,6 +1086,7 @@ def inline_calls(prog, body, should_inline, max_depth=2):
             if cb is None or cb.key == body.key or cb.is_closure or not should_inline(cb):
                 continue
             craw = cb.raw
+            inlined_from.add(cb.key)
             loff = len(raw["locals"])
             boff = len(raw["blocks"])
             poff = len(raw.get("promoted", []))
@@ -1020,16 +1096,20 @@ def inline_calls(prog, body, should_inline, max_depth=2):
             for ai, a in enumerate(t["args"]):
                 blk["stmts"].append({"k": "assign", "dst": {"l": loff + 1 + ai, "p": []}, "rv": {"k": "use", "a": a}, "sp": t["sp"]})
             dst, target = t["dst"], t["target"]
+            # the callee writes its result straight into the caller's destination when that is a whole local (as hand-inlined
+            # code would): error / success aggregates of a forwarded `helper(..)` then define the caller's own return place
+            z = dst["l"] if not dst["p"] else None
             blk["term"] = {"k": "goto", "target": boff, "sp": t["sp"]}
             for cbi, cblk in enumerate(craw["blocks"]):
-                nb = {"stmts": _remap(cblk["stmts"], loff, boff, poff), "cleanup": cblk.get("cleanup", False)}
+                nb = {"stmts": _remap(cblk["stmts"], loff, boff, poff, z), "cleanup": cblk.get("cleanup", False)}
                 ct = cblk["term"]
                 k = ct["k"]
                 if k == "return":
-                    nb["stmts"].append({"k": "assign", "dst": dst, "rv": {"k": "use", "a": {"k": "move", "pl": {"l": loff, "p": []}}}, "sp": ct["sp"]})
+                    if z is None:
+                        nb["stmts"].append({"k": "assign", "dst": dst, "rv": {"k": "use", "a": {"k": "move", "pl": {"l": loff, "p": []}}}, "sp": ct["sp"]})
                     nb["term"] = {"k": "goto", "target": target, "sp": ct["sp"]}
                 else:
-                    nt = _remap(ct, loff, boff, poff)
+                    nt = _remap(ct, loff, boff, poff, z)
                     for key in ("target", "otherwise", "cleanup"):
                         if isinstance(nt.get(key), int):
                             nt[key] = nt[key] + boff
@@ -1045,6 +1125,7 @@ def inline_calls(prog, body, should_inline, max_depth=2):
         return body
     nbdy = Body(prog, raw, track_mut=body.track_mut)
     nbdy.inlined = True
+    nbdy.inlined_from = inlined_from
     return nbdy
 
 
@@ -1109,4 +1190,142 @@ def eliminate_static_refs(prog, body):
         return body
     nb = Body(prog, new, track_mut=body.track_mut)
     nb.inlined = True
+    nb.inlined_from = set(getattr(body, "inlined_from", ()))
+    return nb
+
+
+
+def thread_constant_flags(prog, body):
+    """Jump threading for loop-control flags: a bool local that is only ever assigned the constants true / false and tested by a
+    switch (`while !done { .. if c { done = true } .. }`).  An edge that sets the flag to a constant and then jumps to the testing
+    block is redirected to a copy of that block which goes straight to the arm the constant selects.  The flag-controlled loop
+    becomes an ordinary loop with a break, which is what the invariant and progress engines understand.  The transformation only
+    duplicates the testing block's own statements; no path is added or removed."""
+    raw = body.raw
+    nargs = raw.get("arg_count", 0)
+    defs, reffed = {}, set()
+    for blk in raw["blocks"]:
+        for s_ in blk["stmts"]:
+            if s_["k"] in ("assign", "setdiscr"):
+                if not s_["dst"]["p"]:
+                    defs.setdefault(s_["dst"]["l"], []).append(s_.get("rv"))
+                rv = s_.get("rv") or {}
+                if rv.get("k") == "ref":
+                    reffed.add(rv["pl"]["l"])
+        t = blk["term"]
+        if t["k"] == "call" and not t["dst"]["p"]:
+            defs.setdefault(t["dst"]["l"], []).append({"k": "call"})
+
+    def const_bool(rv):
+        if rv and rv.get("k") == "use" and rv["a"]["k"] == "const" and "bool" in rv["a"]["c"]:
+            return bool(rv["a"]["c"]["bool"])
+        return None
+    flags = {l for l, rvs in defs.items() if l > nargs and l not in reffed and rvs and all(const_bool(rv) is not None for rv in rvs)
+             and (raw["locals"][l].get("ty") == "bool")}
+    if not flags:
+        return body
+    new = json.loads(json.dumps(raw))
+    blocks = new["blocks"]
+    changed = False
+    n0 = len(blocks)
+
+    def succs(bi):
+        t_ = blocks[bi]["term"]
+        k_ = t_["k"]
+        if k_ == "goto":
+            return [t_["target"]]
+        if k_ == "switch":
+            return [tg for _v, tg in t_["arms"]] + [t_["otherwise"]]
+        if k_ in ("call", "assert", "drop"):
+            return [t_["target"]] if t_.get("target") is not None else []
+        return []
+
+    def test_of(bi):
+        """(flag, negated) if block bi ends in a switch on a flag (directly, or on `!flag` / a copy computed in the block)"""
+        S = blocks[bi]
+        t = S["term"]
+        if S.get("cleanup") or t["k"] != "switch" or t["discr"]["k"] not in ("move", "copy") or t["discr"]["pl"]["p"]:
+            return None
+        d = t["discr"]["pl"]["l"]
+        F, neg = None, False
+        if d in flags:
+            F = d
+        else:
+            ds_ = [s_ for s_ in S["stmts"] if s_["k"] == "assign" and not s_["dst"]["p"] and s_["dst"]["l"] == d]
+            if len(ds_) == 1:
+                rv = ds_[0]["rv"]
+                if rv["k"] == "unop" and rv.get("op") == "Not" and rv["a"]["k"] in ("move", "copy") and not rv["a"]["pl"]["p"] and rv["a"]["pl"]["l"] in flags:
+                    F, neg = rv["a"]["pl"]["l"], True
+                elif rv["k"] == "use" and rv["a"]["k"] in ("move", "copy") and not rv["a"]["pl"]["p"] and rv["a"]["pl"]["l"] in flags:
+                    F = rv["a"]["pl"]["l"]
+        if F is None or any(s_["k"] == "assign" and not s_["dst"]["p"] and s_["dst"]["l"] == F for s_ in S["stmts"]):
+            return None
+        return F, neg
+
+    for F in sorted(flags):
+        tests = {bi: test_of(bi) for bi in range(n0)}
+        tests = {bi: tn for bi, tn in tests.items() if tn is not None and tn[0] == F}
+        if not tests:
+            continue
+        # forward constant propagation of F alone: value at block entry ∈ {None (unreached), True, False, "top"}
+        IN = {0: "top"}
+        work = [0]
+        OUT_EDGE = {}
+        while work:
+            bi = work.pop()
+            v = IN[bi]
+            for s_ in blocks[bi]["stmts"]:
+                if s_["k"] == "assign" and not s_["dst"]["p"] and s_["dst"]["l"] == F:
+                    v = const_bool(s_["rv"])
+            t_ = blocks[bi]["term"]
+            for sx in succs(bi):
+                ev = v
+                if bi in tests and t_["k"] == "switch":
+                    neg = tests[bi][1]
+                    # which flag values lead to sx?
+                    vals = [dv for dv, tg in t_["arms"] if tg == sx]
+                    if sx == t_["otherwise"] and not vals:
+                        taken = [x for x in (0, 1) if x not in [dv for dv, _tg in t_["arms"]]]
+                    else:
+                        taken = vals
+                    if len(taken) == 1 and sx != t_["otherwise"] or (len(taken) == 1):
+                        fv = bool(taken[0])
+                        ev = (not fv) if neg else fv
+                OUT_EDGE[(bi, sx)] = ev
+                old = IN.get(sx)
+                nv = ev if old is None else (old if old == ev else "top")
+                if nv != old:
+                    IN[sx] = nv
+                    work.append(sx)
+        for si, (F_, neg) in tests.items():
+            S = blocks[si]
+            t = S["term"]
+            for pi in range(n0):
+                P = blocks[pi]
+                if P.get("cleanup") or pi == si or P["term"]["k"] != "goto" or pi not in IN:
+                    continue
+                tgt = P["term"]["target"]
+                hops = 0
+                while tgt != si and hops < 3 and not blocks[tgt]["stmts"] and blocks[tgt]["term"]["k"] == "goto":
+                    tgt = blocks[tgt]["term"]["target"]
+                    hops += 1
+                if tgt != si:
+                    continue
+                val = OUT_EDGE.get((pi, P["term"]["target"]))
+                if val not in (True, False):
+                    continue
+                dv = int((not val) if neg else val)
+                dest = t["otherwise"]
+                for v_, tg in t["arms"]:
+                    if v_ == dv:
+                        dest = tg
+                clone = {"stmts": json.loads(json.dumps(S["stmts"])), "cleanup": False, "term": {"k": "goto", "target": dest, "sp": t.get("sp")}}
+                blocks.append(clone)
+                P["term"] = dict(P["term"], target=len(blocks) - 1)
+                changed = True
+    if not changed:
+        return body
+    nb = Body(prog, new, track_mut=body.track_mut)
+    nb.inlined = True
+    nb.inlined_from = set(getattr(body, "inlined_from", ()))
     return nb
